@@ -252,8 +252,9 @@ package mat
 //@ ensures v != bv ==> noCommonVec(v.mat, bv.mat)
 //@ ensures [real] v.mat.Inc == 1 && old(av.mat.Inc) == 1 && old(bv.mat.Inc) == 1 ==>
 //@     forall(i, 0, old(av.mat.N), v.mat.Data[i] == old(av.mat.Data[i]) + old(bv.mat.Data[i]))
-//@ ensures [realx] disjoint(v.mat.Data, old(av.mat.Data)) && disjoint(v.mat.Data, old(bv.mat.Data)) ==>
-//@     forall(i, 0, old(av.mat.N), v.mat.Data[i*v.mat.Inc] == old(av.mat.Data[i*av.mat.Inc]) + old(bv.mat.Data[i*bv.mat.Inc]))
+// The strided clause (operands in separate slices: v[i*Inc] == a[i*aInc] + b[i*bInc]) was accepted with the
+// unsound loop-head havoc only; with the corrected engine the strided invariants are dropped and the
+// clause is refuted as stated, so it is left out (unit increments: clause above).
 
 //@ func VecDense.SubVec props: C04 C05 C07(safety)
 //@ option timeout=40000
@@ -270,8 +271,9 @@ package mat
 //@ ensures v != bv ==> noCommonVec(v.mat, bv.mat)
 //@ ensures [real] v.mat.Inc == 1 && old(av.mat.Inc) == 1 && old(bv.mat.Inc) == 1 ==>
 //@     forall(i, 0, old(av.mat.N), v.mat.Data[i] == old(av.mat.Data[i]) - old(bv.mat.Data[i]))
-//@ ensures [realx] disjoint(v.mat.Data, old(av.mat.Data)) && disjoint(v.mat.Data, old(bv.mat.Data)) ==>
-//@     forall(i, 0, old(av.mat.N), v.mat.Data[i*v.mat.Inc] == old(av.mat.Data[i*av.mat.Inc]) - old(bv.mat.Data[i*bv.mat.Inc]))
+// The strided clause (operands in separate slices: v[i*Inc] == a[i*aInc] - b[i*bInc]) was accepted with the
+// unsound loop-head havoc only; with the corrected engine the strided invariants are dropped and the
+// clause is refuted as stated, so it is left out (unit increments: clause above).
 
 //@ func VecDense.MulElemVec props: C04 C05 C07(safety)
 //@ option dead-return-ok
@@ -309,28 +311,7 @@ package mat
 //@ ensures [real] v.mat.Inc == 1 && old(av.mat.Inc) == 1 ==> forall(i, 0, old(av.mat.N), v.mat.Data[i] == alpha * old(av.mat.Data[i]))
 //@ ensures [realx] disjoint(v.mat.Data, old(av.mat.Data)) ==> forall(i, 0, old(av.mat.N), v.mat.Data[i*v.mat.Inc] == alpha * old(av.mat.Data[i*av.mat.Inc]))
 
-// FINDING (CopyVec, not under contract): the contract written from the
-// documentation ("similar to the built-in copy; it copies as much as the overlap
-// between the two vectors and returns the number of elements it copied": no
-// panic, min(len) elements of a's values at entry) is violated twice:
-//  (1) call.pre valid(blas64.Dcopy) sat: an empty receiver or an empty operand
-//      (Inc == 0) reaches Dcopy with a zero increment and panics with the blas
-//      string "blas: zero y index increment" instead of returning 0 (Dense.Copy
-//      returns 0, 0);
-//  (2) post sat: CopyVec has no overlap check; a source overlapping the
-//      destination with a different increment is overwritten while it is read
-//      (src cells 0,1,2,3 into dst cells 0,2,4,6 gives 0 1 1 3).
-// With "v.mat.Inc != 0 && av.mat.Inc != 0" added to requires and the value
-// clause guarded by "v == av || disjoint(v.mat.Data, av.mat.Data)" the block
-// verifies (21 obligations); it is left out so that the defects stay visible.
-//
-//  func VecDense.CopyVec props: C04 C05 C07(safety)
-//  option dead-return-ok
-//  let av = unbox(a, *VecDense)
-//  requires wfVD(v) && hasType(a, *VecDense) && wfVD(av)
-//  writes v.mat.Data[i*v.mat.Inc] for i in 0..min(v.mat.N, av.mat.N)
-//  ensures result == min(old(v.mat.N), old(av.mat.N))
-//  ensures forall(i, 0, result, same(v.mat.Data[i*v.mat.Inc], old(av.mat.Data[i*av.mat.Inc])))
+// (CopyVec: see the block and the FINDING comments in the section "VecDense constructors, Reset, copies, Dot" below.)
 
 // AddScaledVec with *VecDense operands: v = a + alpha*b, for a sized receiver.
 //
@@ -373,8 +354,13 @@ package mat
 //@ ensures [real] v.mat.Inc == 1 && old(av.mat.Inc) == 1 && old(bv.mat.Inc) == 1 && (alpha != 0 || v == av) &&
 //@     (v == av || sepSlices(v.mat.Data, old(av.mat.Data))) && (v == bv || sepSlices(v.mat.Data, old(bv.mat.Data))) ==>
 //@     forall(i, 0, old(av.mat.N), v.mat.Data[i] == old(av.mat.Data[i]) + alpha*old(bv.mat.Data[i]))
-//@ ensures [real] disjoint(v.mat.Data, old(av.mat.Data)) && disjoint(v.mat.Data, old(bv.mat.Data)) ==>
-//@     forall(i, 0, old(av.mat.N), v.mat.Data[i*v.mat.Inc] == old(av.mat.Data[i*av.mat.Inc]) + alpha*old(bv.mat.Data[i*bv.mat.Inc]))
+// (alpha == 1 and alpha == -1 delegate to AddVec / SubVec, whose own strided clauses state the values;
+// re-deriving them here through the call was only "proved" by the unsound loop-head havoc and is
+// left out: the solvers refute the implication across the callee's receiver resizing)
+// The strided clause for operands in separate slices,
+//   disjoint(v, a) && disjoint(v, b) ==> forall i: v[i*Inc] == a[i*aInc] + alpha*b[i*bInc],
+// is not decided any more (z3: sat on the quantified query, i.e. an instantiation the solvers do not
+// find, at the CopyVec + AxpyInc exit) and is left out rather than claimed.
 //@ ensures [real] alpha != 1 && alpha != -1 && v == av && (v == bv || disjoint(v.mat.Data, old(bv.mat.Data))) ==>
 //@     forall(i, 0, old(av.mat.N), v.mat.Data[i*v.mat.Inc] == old(av.mat.Data[i*av.mat.Inc]) + alpha*old(bv.mat.Data[i*bv.mat.Inc]))
 
@@ -422,29 +408,7 @@ package mat
 //@ ensures m != bd ==> noCommon(m.mat, bd.mat)
 //@ loop 1: invariant ja == it*amat.Stride && jb == it*bmat.Stride && jm == it*m.mat.Stride && it <= ar
 
-// FINDING (Dense.Copy, not under contract): the contract written from the
-// documentation ("similar to the built-in copy; it copies as much as the overlap
-// between the two matrices": the receiver's r x c corner holds a's values at
-// entry) fails for a *Dense operand that overlaps the receiver with a different
-// stride. Copy orders the row copies by the sign of offset(m, a) and never calls
-// checkOverlap on this path:
-//  (1) offset == 0 with different strides: "default: nothing to do", nothing is
-//      copied (post sat; the same clause guarded by m.mat.Stride == ad.mat.Stride
-//      verifies);
-//  (2) offset > 0: rows are copied forwards, a row of the receiver written early
-//      can cover a later row of a (a 3x2 stride 2 at cell 1, receiver 3x2
-//      stride 5 at cell 0: the last row receives a's second row).
-// The value clause restricted to operands in another allocation
-// (m.mat.Data.rid != ad.mat.Data.rid) stays undecided at the merged return
-// (row prefix/suffix invariants are kept for the three copy loops).
-//
-//  func Dense.Copy props: C04 C05 C07(safety)
-//  option dead-return-ok
-//  let ad = unbox(a, *Dense)
-//  requires wfDense(m) && hasType(a, *Dense) && wfDense(ad)
-//  writes m.mat.Data[i*m.mat.Stride+j] for i in 0..min(m.mat.Rows, ad.mat.Rows), j in 0..min(m.mat.Cols, ad.mat.Cols)
-//  ensures m == ad || (r == min(old(m.mat.Rows), old(ad.mat.Rows)) && c == min(old(m.mat.Cols), old(ad.mat.Cols))) || (r == 0 && c == 0)
-//  ensures forall(i, 0, r, forall(j, 0, c, same(m.mat.Data[i*m.mat.Stride+j], old(ad.mat.Data[i*ad.mat.Stride+j]))))
+// (Dense.Copy: see the block and the FINDING comment in the section "Dense row/column assignment and whole-matrix helpers" below.)
 
 // ---- views (C04 / C07) ---------------------------------------------------------------
 
@@ -654,3 +618,394 @@ package mat
 //@ ensures len(result) == l && forall(k, 0, l, same(result[k], float64(0)))
 //@ ensures l <= cap(old(f)) ==> result.rid == f.rid && result.off == f.off
 //@ ensures l > cap(old(f)) ==> fresh(result)
+
+// ---- Dense row/column assignment and whole-matrix helpers (C04 / C05 / C07) ---------------
+//
+// SetRow / SetCol: the index must name a row (column) of the receiver and src
+// must have exactly the length of a row (column); otherwise the documented
+// panic is raised before anything is written. Only the cells of that row
+// (column) inside the receiver's window are written; the row (column) then holds
+// the values src had at entry. SetRow copies with the built-in copy (memmove),
+// so the clause holds for a src that overlaps the row.
+//
+// FINDING (SetCol, value clause narrowed by "disjoint(m.mat.Data, src)"): SetCol
+// goes through Dcopy (forward element loop, contract for separate slices only);
+// a src that overlaps the column is overwritten while it is read:
+//   data := {0,1,...,8}; m := NewDense(3, 3, data); m.SetCol(0, data[1:4])
+// leaves column 0 = [1 2 2] instead of [1 2 3] (SetRow with an overlapping src
+// is exact). The documentation says nothing about aliasing of src.
+
+//@ func Dense.SetRow props: C04 C05 C07(safety)
+//@ requires wfDense(m)
+//@ valid 0 <= i && i < m.mat.Rows && len(src) == m.mat.Cols
+//@ panics iff !valid, before-writes
+//@ writes m.mat.Data[i*m.mat.Stride+j] for j in 0..m.mat.Cols
+//@ ensures forall(j, 0, m.mat.Cols, same(m.mat.Data[i*m.mat.Stride+j], old(src[j])))
+
+//@ func Dense.SetCol props: C04 C05 C07(safety)
+//@ option delegate-panics
+//@ requires wfDense(m)
+//@ valid 0 <= j && j < m.mat.Cols && len(src) == m.mat.Rows
+//@ panics iff !valid, before-writes
+//@ writes m.mat.Data[i*m.mat.Stride+j] for i in 0..m.mat.Rows
+//@ ensures disjoint(m.mat.Data, src) ==> forall(i, 0, m.mat.Rows, same(m.mat.Data[i*m.mat.Stride+j], old(src[i])))
+
+// Row / Col (package functions) for a *Dense operand: the index must name a row
+// (column) of a, dst must be nil or have exactly the length of a row (column).
+// The operand is not written (the result is dst, or a new slice when dst is
+// nil) and holds the values of the row (column) at entry. Row copies with the
+// built-in copy (any overlap of dst with the row); Col goes through Dcopy, whose
+// contract states the values for separate slices only.
+//
+// FINDING (Row, message only; the verifier does not distinguish panic values):
+// Row reports a row index out of range with ErrColAccess
+// ("mat: column index out of range"): mat.Row(nil, 2, NewDense(2, 3, nil)).
+
+//@ func Row props: C04 C05 C07(safety)
+//@ option delegate-panics
+//@ option dead-return-ok
+//@ let ad = unbox(a, *Dense)
+//@ requires hasType(a, *Dense) && wfDense(ad)
+//@ valid 0 <= i && i < ad.mat.Rows && (dst == nil || len(dst) == ad.mat.Cols)
+//@ panics iff !valid, before-writes
+//@ writes dst[k] for k in 0..len(dst)
+//@ ensures len(result) == ad.mat.Cols && (dst == nil ==> fresh(result)) && (dst != nil ==> sameSlice(result, dst))
+//@ ensures forall(k, 0, ad.mat.Cols, same(result[k], old(ad.mat.Data[i*ad.mat.Stride+k])))
+
+//@ func Col props: C04 C05 C07(safety)
+//@ option delegate-panics
+//@ option dead-return-ok
+//@ let ad = unbox(a, *Dense)
+//@ requires hasType(a, *Dense) && wfDense(ad)
+//@ valid 0 <= j && j < ad.mat.Cols && (dst == nil || len(dst) == ad.mat.Rows)
+//@ panics iff !valid, before-writes
+//@ writes dst[k] for k in 0..len(dst)
+//@ ensures len(result) == ad.mat.Rows && (dst == nil ==> fresh(result)) && (dst != nil ==> sameSlice(result, dst))
+//@ ensures dst == nil || disjoint(dst, ad.mat.Data) ==> forall(k, 0, ad.mat.Rows, same(result[k], old(ad.mat.Data[k*ad.mat.Stride+j])))
+
+// Zero: every cell of the receiver's window becomes +0; nothing else is written
+// (stride padding untouched); an empty receiver is accepted.
+
+//@ func Dense.Zero props: C04 C07(safety)
+//@ requires wfDense(m)
+//@ writes m.mat.Data[i*m.mat.Stride+j] for i in 0..m.mat.Rows, j in 0..m.mat.Cols
+//@ ensures forall(i, 0, m.mat.Rows, forall(j, 0, m.mat.Cols, same(m.mat.Data[i*m.mat.Stride+j], float64(0))))
+
+// Reset: the receiver becomes empty (IsEmpty, Dims 0 x 0) and keeps its storage
+// for reuse; no element is written.
+
+//@ func Dense.Reset props: C04 C07(safety)
+//@ requires wfDense(m)
+//@ modifies m
+//@ writes nothing
+//@ ensures wfDense(m) && m.mat.Rows == 0 && m.mat.Cols == 0 && m.mat.Stride == 0 && m.capRows == 0 && m.capCols == 0
+//@ ensures len(m.mat.Data) == 0 && m.mat.Data.rid == old(m.mat.Data).rid && m.mat.Data.off == old(m.mat.Data).off && cap(m.mat.Data) == cap(old(m.mat.Data))
+
+// Copy with a *Dense operand (not transposed). Documentation: "Copy makes a copy
+// of elements of a into the receiver. It is similar to the built-in copy; it
+// copies as much as the overlap between the two matrices and returns the number
+// of rows and columns it copied"; Copier: "Copy will copy from a source that
+// aliases the receiver unless the source is transposed". So: no panic, r x c =
+// the minimum of the dimensions, only the r x c corner of the receiver is
+// written (the operand only where it is that corner), and the corner holds a's
+// values AT ENTRY for every aliasing of a non-transposed source.
+//
+// FINDING (value clause narrowed to "other allocation" and "same allocation and
+// equal strides"): the unrestricted clause
+//   ensures forall(i, 0, r, forall(j, 0, c, same(m.mat.Data[i*m.mat.Stride+j], old(ad.mat.Data[i*ad.mat.Stride+j]))))
+// is refuted (post sat). Copy orders the row copies by the sign of
+// offset(m, a), which is right for equal strides only, and never calls
+// checkOverlap on this path:
+//  (1) same first cell, different strides ("default: nothing to do"): nothing is copied:
+//      data := {1..8}; a := NewDense(2,2,data[:4]); m := NewDense(2,4,data).Slice(0,2,0,2)
+//      m.Copy(a) leaves m = [[1 2][5 6]], want [[1 2][3 4]];
+//  (2) offset > 0, different strides: a row of the receiver written early covers a later row of a:
+//      data := {1..9}; big := NewDense(3,3,data); dst := big.Slice(0,3,0,1); src := NewDense(3,1,data[1:4])
+//      dst.Copy(src) gives [2 3 3], want [2 3 4].
+// For equal strides the overlapping copy is exact (see below).
+//
+// The two restricted value clauses are NOT part of the block: with the row
+// invariants below each of them verified alone (45-60 s) on the engine binaries
+// of 09:29-10:31, but with the current binary (10:42, address-taken locals as
+// objects) the post-condition at the merged return is undecided (all solvers
+// unknown after 50-90 s), alone or together, so they are left as text:
+//   ensures m.mat.Data.rid != ad.mat.Data.rid ==> forall(i, 0, r, forall(j, 0, c, same(m.mat.Data[i*m.mat.Stride+j], old(ad.mat.Data[i*ad.mat.Stride+j]))))
+//   ensures m.mat.Data.rid == ad.mat.Data.rid && m.mat.Stride == ad.mat.Stride ==> (the same forall)
+//   loop 2: invariant m.mat.Data.rid == amat.Data.rid && m.mat.Stride == amat.Stride ==> forall(k, 0, i+1, forall(j, 0, c, same(amat.Data[k*amat.Stride+j], old(ad.mat.Data[k*ad.mat.Stride+j]))))
+//   loop 3: invariant m.mat.Data.rid == amat.Data.rid && m.mat.Stride == amat.Stride ==> forall(k, i, r, forall(j, 0, c, same(amat.Data[k*amat.Stride+j], old(ad.mat.Data[k*ad.mat.Stride+j]))))
+// (the invariants: the rows of a that are not yet copied are unchanged).
+// The block decides: no panic, no index/slice fault for any strides, offsets and
+// aliasing, only the r x c corner of the receiver is written, the result.
+// One contract per function: the operand's dynamic type is fixed to *Dense
+// (a VecDense or a general Matrix operand is not covered).
+
+//@ func Dense.Copy props: C04 C05 C07(safety)
+//@ option dead-return-ok
+//@ let ad = unbox(a, *Dense)
+//@ requires wfDense(m) && hasType(a, *Dense) && wfDense(ad)
+//@ writes m.mat.Data[i*m.mat.Stride+j] for i in 0..min(m.mat.Rows, ad.mat.Rows), j in 0..min(m.mat.Cols, ad.mat.Cols)
+//@ ensures r == min(old(m.mat.Rows), old(ad.mat.Rows)) && c == min(old(m.mat.Cols), old(ad.mat.Cols))
+
+// Trace: the receiver must be square and not empty (ErrSquare / ErrZeroLength);
+// nothing is written; in exact arithmetic the result is the sum of the diagonal
+// cells (i, i), added in increasing i.
+
+//@ spec rec diagsum(d []float64, n int, stride int) float64 decreases n =
+//@      ite(n <= 0, 0, diagsum(d, n-1, stride) + d[(n-1)*stride+(n-1)])
+
+//@ func Dense.Trace props: C04 C07(safety)
+//@ requires wfDense(m)
+//@ valid m.mat.Rows == m.mat.Cols && m.mat.Rows != 0
+//@ panics iff !valid, before-writes
+//@ writes nothing
+//@ ensures [real] result == diagsum(m.mat.Data, m.mat.Rows, m.mat.Stride)
+//@ loop 1: invariant [real] v == diagsum(m.mat.Data, i, m.mat.Stride) && 0 <= i && i <= m.mat.Rows
+
+// CloneFrom for a *Dense operand (any shape, also empty; the receiver's previous
+// value is irrelevant): the receiver becomes an r x c matrix with stride c over
+// newly allocated data (no storage shared with a or with the old receiver, "will
+// not cause shadowing"), holding a's values at entry, also when a is the
+// receiver itself; no caller-visible cell is written.
+// (The value clause is written "true && forall(...)" so that no prefix/suffix
+// candidate invariants are generated from it: the copy loop fills a local slice,
+// and refuting the candidates over m.mat.Data costs two minutes.)
+
+//@ func Dense.CloneFrom props: C04 C05 C07(safety)
+//@ option dead-return-ok
+//@ let ad = unbox(a, *Dense)
+//@ requires m != nil && hasType(a, *Dense) && wfDense(ad)
+//@ modifies m
+//@ writes nothing
+//@ ensures wfDense(m) && m.mat.Rows == old(ad.mat.Rows) && m.mat.Cols == old(ad.mat.Cols) && m.mat.Stride == old(ad.mat.Cols)
+//@ ensures m.capRows == old(ad.mat.Rows) && m.capCols == old(ad.mat.Cols) && fresh(m.mat.Data) && len(m.mat.Data) == old(ad.mat.Rows)*old(ad.mat.Cols)
+//@ ensures true && forall(i, 0, old(ad.mat.Rows), forall(j, 0, old(ad.mat.Cols), same(m.mat.Data[i*m.mat.Stride+j], old(ad.mat.Data[i*ad.mat.Stride+j]))))
+//@ loop 2: invariant forall(k, 0, i, forall(j, 0, c, same(mat.Data[k*c+j], old(ad.mat.Data[k*ad.mat.Stride+j]))))
+
+// DenseCopyOf for a *Dense operand: a new matrix as produced by CloneFrom.
+
+//@ func DenseCopyOf props: C04 C05 C07(safety)
+//@ let ad = unbox(a, *Dense)
+//@ requires hasType(a, *Dense) && wfDense(ad)
+//@ writes nothing
+//@ ensures fresh(result) && wfDense(result) && result.mat.Rows == ad.mat.Rows && result.mat.Cols == ad.mat.Cols && result.mat.Stride == ad.mat.Cols && fresh(result.mat.Data)
+//@ ensures forall(i, 0, ad.mat.Rows, forall(j, 0, ad.mat.Cols, same(result.mat.Data[i*result.mat.Stride+j], old(ad.mat.Data[i*ad.mat.Stride+j]))))
+
+// Grow: r and c must not be negative (ErrIndexOutOfRange). Grow(0, 0) is the
+// receiver; otherwise the result is a new *Dense of the enlarged shape which
+// shares the receiver's storage and stride when the new shape fits into the
+// capacity, and owns new storage holding the receiver's elements otherwise. The
+// receiver's header is not modified; the only cells written are spare capacity of
+// an EMPTY receiver (reused, zeroed).
+//
+// FINDING (well-formedness of the result narrowed by "m.mat.Rows != 0 || (r > 0) == (c > 0)"):
+// growing an empty matrix in one direction only yields a matrix with one zero
+// and one non-zero dimension whose stride is not zero:
+//   var e Dense; g := e.Grow(0, 5).(*Dense)   // Dims 0 x 5, IsEmpty() == false
+// which no constructor produces (NewDense panics with ErrZeroLength) and which
+// other methods do not expect: g.DiagView() faults with
+// "runtime error: slice bounds out of range [:-5]".
+
+//@ func Dense.Grow props: C04 C05 C07(safety)
+//@ requires wfDense(m)
+//@ valid r >= 0 && c >= 0
+//@ panics iff !valid, before-writes
+//@ writes m.mat.Data[k] for k in 0..(m.mat.Rows+r)*(m.mat.Cols+c) if m.mat.Rows == 0
+//@ ensures hasType(result, *Dense) && (r == 0 && c == 0 ==> unbox(result, *Dense) == m)
+//@ ensures r+c > 0 ==> fresh(unbox(result, *Dense)) && unbox(result, *Dense).mat.Rows == m.mat.Rows+r && unbox(result, *Dense).mat.Cols == m.mat.Cols+c
+//@ ensures m.mat.Rows != 0 || (r > 0) == (c > 0) ==> wfDense(unbox(result, *Dense))
+//@ ensures r+c > 0 && m.mat.Rows != 0 && m.mat.Rows+r <= m.capRows && m.mat.Cols+c <= m.capCols ==>
+//@     unbox(result, *Dense).mat.Stride == m.mat.Stride && unbox(result, *Dense).mat.Data.rid == m.mat.Data.rid && unbox(result, *Dense).mat.Data.off == m.mat.Data.off
+//@ ensures m.mat.Rows != 0 && (m.mat.Rows+r > m.capRows || m.mat.Cols+c > m.capCols) ==> fresh(unbox(result, *Dense).mat.Data)
+// (the elements of the new storage, forall i, j: same(result(i, j), old(m(i, j))), would need the value clause of Copy)
+
+// Stack / Augment (not under contract). With the block
+//    func Dense.Stack / option delegate-panics / let ad, bd = unbox(a|b, *Dense)
+//    requires wfDense(m) && hasType(a, *Dense) && hasType(b, *Dense) && wfDense(ad) && wfDense(bd)
+//    valid ad.mat.Cols == bd.mat.Cols && ad.mat.Rows+bd.mat.Rows > 0 && (m.mat.Rows == 0 || (m.mat.Rows == ad.mat.Rows+bd.mat.Rows && m.mat.Cols == ad.mat.Cols))
+//    panics iff !valid, before-writes / modifies m
+//    writes m.mat.Data[k] for k in 0..(ad.mat.Rows+bd.mat.Rows)*ad.mat.Cols if m.mat.Rows == 0 ; m.mat.Data[i*m.mat.Stride+j] for i in 0..m.mat.Rows, j in 0..m.mat.Cols
+//    ensures wfDense(m) && m.mat.Rows == old(ad.mat.Rows)+old(bd.mat.Rows) && m.mat.Cols == old(ad.mat.Cols)
+// 32 of 33 obligations are discharged (panics iff, shapes, call preconditions of
+// reuseAsNonZeroed / slice / Copy, the frame of m.Copy(a)); the one left is
+//    call.frame [w.Copy writes m.mat.Data[i*m.mat.Stride+j] for i in 0..min(...), j in 0..min(...)]
+// (timeout in all solvers, z3 undecided after 300 s): the cell (k_i, k_j) of the
+// window w = m.slice(ar, ar+br, 0, bc) is cell (ar+k_i, k_j) of m, and the
+// witness search forms sums of candidates only for one-variable families; slice
+// is used by contract, so the address is not syntactically a polynomial in m's stride.
+//
+// FINDING (Stack, Augment; independent of the above, reproduced on the code):
+// only "m == a || m == b" is rejected; an operand that is a VIEW of the receiver
+// is overwritten by the first Copy before it is read by the second:
+//   m := NewDense(4, 2, {1,2,3,4,0,0,0,0}); b := m.Slice(0, 2, 0, 2); a := NewDense(2, 2, {9,9,9,9})
+//   m.Stack(a, b) gives rows [9 9][9 9][9 9][9 9], want [9 9][9 9][1 2][3 4]   (no panic);
+//   m := NewDense(2, 4, {1,2,0,0,3,4,0,0}); b := m.Slice(0, 2, 0, 2); m.Augment(a, b)
+//   gives [9 9 9 9][9 9 9 9], want [9 9 1 2][9 9 3 4].
+
+// Scale, Apply: outside the subset ("OUTSIDE-SUBSET: array of non-scalar
+// [63]sync.Pool": the aliasing path goes through isolatedWorkspace / getDenseWorkspace).
+
+// ---- VecDense constructors, Reset, copies, Dot (C04 / C05 / C07) ---------------------------
+
+// NewVecDense: n must be positive and data nil or of length n; the result is a
+// vector of length n with increment 1 over data (or over new zeroed storage).
+
+//@ func NewVecDense props: C04 C07(safety)
+//@ valid n > 0 && (data == nil || len(data) == n)
+//@ panics iff !valid, before-writes
+//@ writes nothing
+//@ ensures wfVD(result) && fresh(result) && result.mat.N == n && result.mat.Inc == 1
+//@ ensures data != nil ==> sameSlice(result.mat.Data, data)
+//@ ensures data == nil ==> fresh(result.mat.Data) && forall(k, 0, n, same(result.mat.Data[k], float64(0)))
+
+// Reset: the receiver becomes empty and keeps its storage; no element is written.
+
+//@ func VecDense.Reset props: C04 C07(safety)
+//@ requires wfVD(v)
+//@ modifies v
+//@ writes nothing
+//@ ensures wfVD(v) && v.mat.N == 0 && v.mat.Inc == 0
+//@ ensures len(v.mat.Data) == 0 && v.mat.Data.rid == old(v.mat.Data).rid && v.mat.Data.off == old(v.mat.Data).off && cap(v.mat.Data) == cap(old(v.mat.Data))
+
+// Dot for two *VecDense: equal, non-zero lengths (ErrShape / ErrZeroLength);
+// nothing is written; in exact arithmetic the result is the defining sum.
+
+//@ func Dot props: C04 C05 C07(safety)
+//@ option delegate-panics
+//@ option dead-return-ok
+//@ let av = unbox(a, *VecDense)
+//@ let bv = unbox(b, *VecDense)
+//@ requires hasType(a, *VecDense) && hasType(b, *VecDense) && wfVD(av) && wfVD(bv)
+//@ valid av.mat.N == bv.mat.N && av.mat.N != 0
+//@ panics iff !valid, before-writes
+//@ writes nothing
+//@ ensures [real] result == f64.dotp(av.mat.Data, bv.mat.Data, av.mat.N, 0, av.mat.Inc, 0, bv.mat.Inc)
+
+// CopyVec with a *VecDense operand. Documentation: "CopyVec makes a copy of
+// elements of a into the receiver. It is similar to the built-in copy; it copies
+// as much as the overlap between the two vectors and returns the number of
+// elements it copied." So: no panic, n = min of the lengths, the first n
+// elements of the receiver (and nothing else) are written and hold a's values at
+// entry. The contract written from that text (no "Inc != 0", no guard on the
+// value clause) fails in two obligations:
+//
+// Repaired defect ("fix: VecDense.CopyVec copies nothing ..."): an empty operand or an
+// empty receiver used to reach Dcopy with a zero increment and to panic with a blas string
+// instead of returning 0 (call.pre valid(blas64.Dcopy) sat):
+//   v := NewVecDense(3, nil); var e VecDense
+//   v.CopyVec(&e)  panicked "blas: zero x index increment";  e.CopyVec(v)  panicked "blas: zero y index increment"
+// The block below has no "Inc != 0" requirement any more.
+//
+// FINDING (value clause narrowed by "v == av || disjoint(v.mat.Data, av.mat.Data)"):
+// post sat: there is no overlap handling; for increments other than 1 Dcopy is a
+// forward element loop, so a source that overlaps the destination with a
+// different increment is overwritten while it is read:
+//   data := {0,1,2,3,4,5,6}; dst := NewDense(3, 2, data[0:6]).ColView(0)  (cells 0,2,4); src := NewVecDense(3, data[0:3])
+//   dst.CopyVec(src) gives [0 1 1], want [0 1 2]   (no panic).
+// (The guard is also what the contract of Dcopy offers: unit-increment overlapping
+// copies go through the built-in copy and are exact, but are not covered here.)
+
+//@ func VecDense.CopyVec props: C04 C05 C07(safety)
+//@ option dead-return-ok
+//@ let av = unbox(a, *VecDense)
+//@ requires wfVD(v) && hasType(a, *VecDense) && wfVD(av)
+//@ writes v.mat.Data[i*v.mat.Inc] for i in 0..min(v.mat.N, av.mat.N)
+//@ ensures result == min(old(v.mat.N), old(av.mat.N))
+//@ ensures true && (v == av || disjoint(v.mat.Data, av.mat.Data) ==> forall(i, 0, result, same(v.mat.Data[i*v.mat.Inc], old(av.mat.Data[i*av.mat.Inc]))))
+
+// CloneFromVec with a *VecDense operand: "makes a copy of a into the receiver,
+// overwriting the previous value of the receiver": the receiver gets a's length,
+// increment 1 (its own storage is reused when large enough) and a's values.
+//
+// FINDING (requires narrowed by "av.mat.Inc != 0"): call.pre valid(blas64.Dcopy)
+// sat: an empty operand panics with a blas string, whereas Dense.CloneFrom
+// accepts an empty operand ("does not make any restriction on shape"):
+//   v := NewVecDense(3, nil); var e VecDense; v.CloneFromVec(&e)  panics "blas: zero x index increment".
+// The value clause is limited (Dcopy) to an operand outside the receiver's old storage.
+
+//@ func VecDense.CloneFromVec props: C04 C05 C07(safety)
+//@ option dead-return-ok
+//@ let av = unbox(a, *VecDense)
+//@ requires wfVD(v) && hasType(a, *VecDense) && wfVD(av) && av.mat.Inc != 0
+//@ modifies v
+//@ writes v.mat.Data[k] for k in 0..av.mat.N if v != av
+//@ ensures wfVD(v) && v.mat.N == old(av.mat.N) && (v != av ==> v.mat.Inc == 1)
+//@ ensures true && (v == av || old(v.mat.Data).rid != old(av.mat.Data).rid ==> forall(i, 0, old(av.mat.N), same(v.mat.Data[i*v.mat.Inc], old(av.mat.Data[i*av.mat.Inc]))))
+
+// ---- DiagDense, SymDense, TriDense: constructor and element access (C04 / C07) --------------
+//
+// Representation invariants: a DiagDense is a strided vector of the diagonal
+// (empty: N == 0 and Inc == 0); SymDense and TriDense hold an N x N row-major
+// array with stride >= N of which only one triangle is referenced (SymDense: the
+// upper one); the Uplo flag of a TriDense is Upper or Lower.
+
+//@ spec wfDiag(d *DiagDense) bool = d != nil && ((d.mat.N == 0 && d.mat.Inc == 0) || (d.mat.N > 0 && d.mat.Inc >= 1 && len(d.mat.Data) >= (d.mat.N-1)*d.mat.Inc+1))
+//@ spec wfSym(s *SymDense) bool = s != nil && s.mat.N >= 0 && (s.mat.N == 0 || (s.mat.Stride >= s.mat.N && len(s.mat.Data) >= (s.mat.N-1)*s.mat.Stride+s.mat.N))
+//@ spec wfTri(t *TriDense) bool = t != nil && t.mat.N >= 0 && (t.mat.Uplo == blas.Upper || t.mat.Uplo == blas.Lower) &&
+//@   (t.mat.N == 0 || (t.mat.Stride >= t.mat.N && len(t.mat.Data) >= (t.mat.N-1)*t.mat.Stride+t.mat.N))
+
+// NewDiagDense: n must be positive and data nil or of length n.
+
+//@ func NewDiagDense props: C04 C07(safety)
+//@ valid n > 0 && (data == nil || len(data) == n)
+//@ panics iff !valid, before-writes
+//@ writes nothing
+//@ ensures wfDiag(result) && fresh(result) && result.mat.N == n && result.mat.Inc == 1
+//@ ensures data != nil ==> sameSlice(result.mat.Data, data)
+//@ ensures data == nil ==> fresh(result.mat.Data) && forall(k, 0, n, same(result.mat.Data[k], float64(0)))
+
+// At: both indices must be in range (ErrRowAccess / ErrColAccess); nothing is
+// written; the value is the stored cell, or zero outside the stored part.
+
+//@ func DiagDense.At props: C04 C07(safety)
+//@ requires wfDiag(d)
+//@ valid 0 <= i && i < d.mat.N && 0 <= j && j < d.mat.N
+//@ panics iff !valid, before-writes
+//@ writes nothing
+//@ ensures same(result, ite(i == j, d.mat.Data[i*d.mat.Inc], float64(0)))
+
+//@ func DiagDense.SetDiag props: C04 C07(safety)
+//@ requires wfDiag(d)
+//@ valid 0 <= i && i < d.mat.N
+//@ panics iff !valid, before-writes
+//@ writes d.mat.Data[i*d.mat.Inc]
+//@ ensures same(d.mat.Data[i*d.mat.Inc], v)
+
+//@ func DiagDense.Dims props: C04 C07(safety)
+//@ requires wfDiag(d)
+//@ writes nothing
+//@ ensures r == d.mat.N && c == d.mat.N
+
+// SymDense: cell (i, j) and cell (j, i) are the one stored cell (min, max).
+
+//@ func SymDense.At props: C04 C07(safety)
+//@ requires wfSym(s)
+//@ valid 0 <= i && i < s.mat.N && 0 <= j && j < s.mat.N
+//@ panics iff !valid, before-writes
+//@ writes nothing
+//@ ensures same(result, s.mat.Data[min(i, j)*s.mat.Stride+max(i, j)])
+
+//@ func SymDense.SetSym props: C04 C07(safety)
+//@ requires wfSym(s)
+//@ valid 0 <= i && i < s.mat.N && 0 <= j && j < s.mat.N
+//@ panics iff !valid, before-writes
+//@ writes s.mat.Data[min(i, j)*s.mat.Stride+max(i, j)]
+//@ ensures same(s.mat.Data[min(i, j)*s.mat.Stride+max(i, j)], v)
+
+// TriDense: At reads the stored triangle and yields zero in the other one;
+// SetTri panics (ErrTriangleSet) for a location in the other triangle.
+
+//@ spec inTri(t *TriDense, i int, j int) bool = (t.mat.Uplo == blas.Upper && i <= j) || (t.mat.Uplo == blas.Lower && i >= j)
+
+//@ func TriDense.At props: C04 C07(safety)
+//@ requires wfTri(t)
+//@ valid 0 <= i && i < t.mat.N && 0 <= j && j < t.mat.N
+//@ panics iff !valid, before-writes
+//@ writes nothing
+//@ ensures same(result, ite(inTri(t, i, j), t.mat.Data[i*t.mat.Stride+j], float64(0)))
+
+//@ func TriDense.SetTri props: C04 C07(safety)
+//@ requires wfTri(t)
+//@ valid 0 <= i && i < t.mat.N && 0 <= j && j < t.mat.N && inTri(t, i, j)
+//@ panics iff !valid, before-writes
+//@ writes t.mat.Data[i*t.mat.Stride+j]
+//@ ensures same(t.mat.Data[i*t.mat.Stride+j], v)
